@@ -88,8 +88,8 @@ var boundary64 = []uint64{0, 1, 2, 7, 8, 31, 32, 33, 63, 64, 65, 127, 128, 255, 
 
 // the standard memory map of the sweeps: pages 16 (RW), 17 (RO), 18 (present, inaccessible), 19 absent,
 // 20 (RW), 32 (RW); a few non-zero bytes at page edges
-const stdPages = "16:2:0=1122334455667788:4088=8899aabbccddeeff;17:1:0=0102030405060708:4090=a1a2a3a4a5a6;20:2:4095=7f;32:2:8=ff"
-const stdPagesAcc0 = "16:2:0=1122334455667788:4088=8899aabbccddeeff;17:1:0=0102030405060708:4090=a1a2a3a4a5a6;18:0:0=5a5a5a5a:4092=a5a5a5a5;20:2:4095=7f;32:2:8=ff"
+const stdPages = "@B"
+const stdPagesAcc0 = "@A"
 
 var addrPool = []uint64{0, 1, 0xFFF8, 0xFFFC, 0xFFFF, 0x10000, 0x10001, 0x10FF8, 0x10FF9, 0x10FFC, 0x10FFD, 0x10FFE, 0x10FFF, 0x11000,
 	0x11FF9, 0x11FFC, 0x11FFF, 0x12000, 0x12FFC, 0x12FFF, 0x13000, 0x13FFD, 0x14000, 0x14FF8, 0x14FFF, 0x20000, 0x20008,
@@ -525,6 +525,7 @@ func genMemProgram(r *h.Rng, o MemOpts) Case {
 		pages = stdPagesAcc0
 	}
 	if r.Intn(4) == 0 { // top-of-address-space pages and a low page
+		pages = PagePresets[pages]
 		pages += ";1048574:2:4088=0102030405060708;1048575:2:4088=1112131415161718"
 		if r.Intn(2) == 0 {
 			pages = "0:2:0=99;15:2:4094=7777;" + pages
@@ -574,6 +575,7 @@ func genSbrkProgram(r *h.Rng) Case {
 	a.Ins(0)
 	pages := stdPages
 	if r.Intn(3) == 0 { // a page already mapped inside the heap range
+		pages = PagePresets[pages]
 		pages += fmt.Sprintf(";%d:1:5=4242", (hp/4096)+1)
 	}
 	return Case{Blob: MkBlob(nil, 0, a.Code, a.Mask), PC: 0, Gas: 100, Regs: randRegs(r), HP: hp, HL: hl, Pages: pages, Tab: 64}
